@@ -100,3 +100,4 @@ package utils
 //@   at call Slice#2 assert ready-sorted: forall a int, b int :: 0 <= a && a < b && b < len(ready) ==> !(ready[b].Target < ready[a].Target)
 //@   ensures notready-sorted: forall a int, b int :: 0 <= a && a < b && b < len(result.1) ==> !(result.1[b].Target < result.1[a].Target)
 //@ end
+
